@@ -59,6 +59,9 @@ SCENARIOS = [
      'try { print("t"); } catch e { print("no"); }\ntry { throw "x"; } catch e2 { print("second " + e2); }\n'
      'fn f() { try { return 1; } catch e { print("no"); } } f();\ntry { throw "y"; } catch e3 { print("third " + e3); }',
      ["t", "second x", "third y"], "ok"),
+    ("finally-that-switches-fibers-while-an-exception-propagates",
+     'var helper = Fiber.new(|| { Fiber.yield(1); return 2; });\nfn risky() { try { throw "boom"; } finally { print(helper.call()); } }\ntry { risky(); print("not here"); } catch e { print("caught " + e); }\nfn risky2() { try { throw "bang"; } finally { print(helper.call()); print(helper.has_finished()); } }\ntry { risky2(); print("not here"); } catch e { print("second caught " + e); }\n',
+     ["1", "caught boom", "2", "true", "second caught bang"], "ok"),
     ("uncaught-names-value",
      'print("before"); throw "unc";', ["before"], ("err", "RuntimeError", "Unhandled exception: unc")),
     ("uncaught-error-instance-keeps-class",
